@@ -114,6 +114,10 @@ def pools():
       "ff_ok": ("Arial", sp.GenericFontFamilyType.serif),
       "ff_bad": (1, 2),
       "ff_mixed": ("Arial", 3),
+      "ff_enum": ("Arial", sp.FontStyleType.italic),            # a member of another enumeration is not a generic family
+      "ff_special": (sp.SpecialValues.normal,),
+      "ff_none_item": ("Arial", None),
+      "ff_empty": (),
       "ff_str": "Arial",
       "ff_list": ["Arial"],
       "normal": sp.SpecialValues.normal,
@@ -132,6 +136,7 @@ def pools():
       "st_display": ("Display", None, Fraction(1, 2), "display_none"),
       "st_ff_ok": ("FontFamily", None, None, "ff_ok"),
       "st_ff_bad": ("FontFamily", None, None, "ff_bad"),
+      "st_ff_enum": ("FontFamily", None, None, "ff_enum"),
       "st_color_bad": ("Color", None, None, "str_red"),
       "st_none_value": ("Color", None, None, "None"),
       "st_notaprop": ("NotAProp", None, None, "red"),
@@ -144,18 +149,19 @@ def pools():
   return _POOLS
 
 
-COMBOS_EX = [("Color", "red"), ("Color", "None"), ("Color", "str_red"), ("FontFamily", "ff_ok"), ("FontFamily", "ff_bad"),
+COMBOS_EX = [("Color", "red"), ("Color", "None"), ("Color", "str_red"), ("FontFamily", "ff_ok"), ("FontFamily", "ff_bad"), ("FontFamily", "ff_enum"),
              ("FontFamily", "ff_str"), ("LineHeight", "normal"), ("LineHeight", "none"), ("Extent", "ext_em"),
              ("FillLineGap", "int1"), ("NotAProp", "red"), ("Display", "display_none")]
 COMBOS_RW = COMBOS_EX + [
-  ("Color", "int1"), ("FontFamily", "ff_mixed"), ("FontFamily", "ff_list"), ("FontFamily", "None"), ("LineHeight", "len_c"),
+  ("Color", "int1"), ("FontFamily", "ff_mixed"), ("FontFamily", "ff_list"), ("FontFamily", "None"), ("FontFamily", "ff_enum"),
+  ("FontFamily", "ff_special"), ("FontFamily", "ff_none_item"), ("FontFamily", "ff_empty"), ("LineHeight", "len_c"),
   ("Extent", "ext_ok"), ("Extent", "len_c"), ("Extent", "ext_raw"), ("Opacity", "half"), ("Opacity", "str_half"),
   ("FillLineGap", "true"), ("Display", "normal"), ("TextOutline", "none"), ("TextOutline", "normal"), ("TextOutline", "outline"),
   ("Origin", "ext_ok"), ("FontSize", "len_em"), ("FontStyle", "italic"), ("StrProp", "red"), ("RubyReserve", "none"),
   ("TextEmphasis", "none"), ("TextEmphasis", "normal"), ("BackgroundColor", "red"), ("LinePadding", "len_c"),
 ]
 STEPS_EX = ["st_color", "st_ff_bad", "st_color_bad", "raw_tuple"]
-STEPS_RW = ["st_color", "st_display", "st_ff_ok", "st_ff_bad", "st_color_bad", "st_none_value", "st_notaprop", "raw_tuple"]
+STEPS_RW = ["st_color", "st_display", "st_ff_ok", "st_ff_bad", "st_ff_enum", "st_color_bad", "st_none_value", "st_notaprop", "raw_tuple"]
 
 
 # ------------------------------------------------------------------------------------------------------------------
@@ -502,7 +508,7 @@ def step(ctx, u, op, pre, hist, known=frozenset()):
           ctx.count("cls:rtc-delimited")
         if M.seq_ok(k, kinds) and not M.seq_strict(k, kinds):
           ctx.count("note:loose-only-sequence")
-  if name in ("set_style", "put_initial_value") and op[2] == "FontFamily" and op[3] in ("ff_bad", "ff_mixed"):
+  if name in ("set_style", "put_initial_value") and op[2] == "FontFamily" and op[3] in ("ff_bad", "ff_mixed", "ff_enum", "ff_special", "ff_none_item"):
     ctx.count("cls:fontfamily-bad-item")
   return res
 
